@@ -33,7 +33,18 @@ func ruleSqrtContext(w *World, r *RuleResult) {
 		r.anchorMissing("(*Context).Sqrt")
 		return
 	}
-	rounds := w.callsTo(f, "(*Context).round")
+	// the roundings of Sqrt: calls of Context.round, or of an unexported helper
+	// that rounds on the context it is called on (roundRoot(d, v, inexact))
+	var rounds []*ssa.Call
+	for _, c := range callsIn(f) {
+		call, ok := c.(*ssa.Call)
+		if !ok {
+			continue
+		}
+		if w.calleeName(call) == "(*Context).round" || w.roundsOnReceiver(callee(call)) {
+			rounds = append(rounds, call)
+		}
+	}
 	if len(rounds) == 0 {
 		r.bad("(*Context).Sqrt | final rounding", w.pos(f.Pos()), "Sqrt no longer rounds its result to the context")
 		return
@@ -941,4 +952,21 @@ func (w *World) exactPowerCmps(f *ssa.Function, n int64) []powerCmp {
 		out = append(out, powerCmp{call, basePtr(a[ti]), basePtr(a[xi])})
 	}
 	return out
+}
+
+// roundsOnReceiver: g is an unexported function of the package whose first
+// parameter is a *Context on which g itself calls Context.round.
+func (w *World) roundsOnReceiver(g *ssa.Function) bool {
+	if g == nil || !w.inPkg(g) || g.Object() == nil || g.Object().Exported() || len(g.Params) == 0 || len(g.Blocks) == 0 {
+		return false
+	}
+	if !typeIs(g.Params[0].Type(), apdPath, "Context") || !isPointer(g.Params[0].Type()) {
+		return false
+	}
+	for _, c := range w.callsTo(g, "(*Context).round") {
+		if c.Common().Args[0] == ssa.Value(g.Params[0]) {
+			return true
+		}
+	}
+	return false
 }
